@@ -77,6 +77,10 @@ enum LOp {
     Clear { c: usize },
     Drop { c: usize },
     DropOdcid { c: usize },
+    /// connection `c` registers the original destination id that connection `from` registered earlier (a client
+    /// that re-uses its first destination id for a second attempt): the table slot now belongs to `c`, and
+    /// dropping `from`'s stale entry later must leave it alone
+    TakeoverOdcid { c: usize, from: usize },
 }
 
 impl LOp {
@@ -88,6 +92,7 @@ impl LOp {
             LOp::Clear { c } => json!(["clear", c]),
             LOp::Drop { c } => json!(["drop", c]),
             LOp::DropOdcid { c } => json!(["drop_odcid", c]),
+            LOp::TakeoverOdcid { c, from } => json!(["takeover_odcid", c, from]),
         }
     }
     fn from_json(v: &Value) -> LOp {
@@ -98,6 +103,7 @@ impl LOp {
             "retire" => LOp::Retire { c: u(1) as usize, seq: u(2) },
             "clear" => LOp::Clear { c: u(1) as usize },
             "drop" => LOp::Drop { c: u(1) as usize },
+            "takeover_odcid" => LOp::TakeoverOdcid { c: u(1) as usize, from: u(2) as usize },
             _ => LOp::DropOdcid { c: u(1) as usize },
         }
     }
@@ -156,6 +162,8 @@ struct LStats {
     at_limit: u64,
     below_limit: u64,
     max_conns: u64,
+    odcid_takeovers: u64,
+    stale_odcid_entries_checked: u64,
 }
 
 /// where does a short-header packet with this DCID land? Ok(Some(conn index)) / Ok(None) = unroutable
@@ -181,7 +189,7 @@ fn probe(router: &Arc<QuicRouter>, conns: &[Conn], cid: ConnectionId) -> Result<
     Ok(hit)
 }
 
-fn check_routes(router: &Arc<QuicRouter>, conns: &[Conn], st: &mut LStats) -> Result<(), Fail> {
+fn check_routes(router: &Arc<QuicRouter>, conns: &[Conn], od_slot: &BTreeMap<Vec<u8>, usize>, st: &mut LStats) -> Result<(), Fail> {
     for (ci, c) in conns.iter().enumerate() {
         for (seq, cid) in c.issued.iter().enumerate() {
             let expect = c.live(seq as u64);
@@ -202,11 +210,17 @@ fn check_routes(router: &Arc<QuicRouter>, conns: &[Conn], st: &mut LStats) -> Re
             }
         }
         if let Some((od, _)) = &c.odcid {
+            // the slot belongs to the connection that registered the id last and still holds its entry
+            let owner = od_slot.get(&od.to_vec()).copied();
             let got = probe(router, conns, *od)?;
             st.probes += 1;
-            match got {
-                Some(g) if g == ci => st.probes_hit += 1,
-                other => fail!("C14.router.odcid-entry", "ODCID {od} of connection {ci} routes to {other:?}"),
+            if got == owner {
+                st.probes_hit += 1;
+                if owner != Some(ci) {
+                    st.stale_odcid_entries_checked += 1;
+                }
+            } else {
+                fail!("C14.router.odcid-entry", "ODCID {od} (entry held by connection {ci}) routes to {got:?}, the slot belongs to {owner:?}");
             }
         }
     }
@@ -240,6 +254,8 @@ fn run_local(ops: &[LOp], st: &mut LStats) -> Result<(), (usize, Fail)> {
     let mut conns: Vec<Conn> = vec![];
     let mut all_ids: BTreeSet<Vec<u8>> = BTreeSet::new();
     let mut odcid_ctr = 0u64;
+    // original destination id -> connection that owns the table slot
+    let mut od_slot: BTreeMap<Vec<u8>, usize> = BTreeMap::new();
     for (step, op) in ops.iter().enumerate() {
         let r: Result<(), Fail> = (|| {
             match op.clone() {
@@ -257,6 +273,7 @@ fn run_local(ops: &[LOp], st: &mut LStats) -> Result<(), (usize, Fail)> {
                         b[..8].copy_from_slice(&odcid_ctr.to_be_bytes());
                         b[8] = 0x0d; // first byte 0 never collides with library ids (top bit set)
                         let od = ConnectionId::from_slice(&b);
+                        od_slot.insert(od.to_vec(), conns.len());
                         (od, router.insert(od.into(), queue.clone()))
                     });
                     let local = ArcLocalCids::new(scid, registry);
@@ -353,13 +370,33 @@ fn run_local(ops: &[LOp], st: &mut LStats) -> Result<(), (usize, Fail)> {
                 LOp::Drop { c } => {
                     conns[c].local = None; // last ArcLocalCids handle: LocalCids::drop -> clear
                     conns[c].cleared = true;
-                    conns[c].odcid = None;
+                    if let Some((od, entry)) = conns[c].odcid.take() {
+                        drop(entry);
+                        if od_slot.get(&od.to_vec()) == Some(&c) {
+                            od_slot.remove(&od.to_vec());
+                        }
+                    }
                 }
                 LOp::DropOdcid { c } => {
                     if let Some((od, entry)) = conns[c].odcid.take() {
                         drop(entry);
-                        if probe(&router, &conns, od)?.is_some() {
-                            fail!("C14.router.odcid-entry", "ODCID {od} still routes after its QuicRouterEntry was dropped");
+                        if od_slot.get(&od.to_vec()) == Some(&c) {
+                            od_slot.remove(&od.to_vec());
+                        }
+                        let owner = od_slot.get(&od.to_vec()).copied();
+                        let got = probe(&router, &conns, od)?;
+                        if got != owner {
+                            fail!("C14.router.odcid-entry", "after connection {c} dropped its QuicRouterEntry for ODCID {od} the id routes to {got:?}; the slot belongs to {owner:?}");
+                        }
+                    }
+                }
+                LOp::TakeoverOdcid { c, from } => {
+                    if c != from && c < conns.len() && from < conns.len() && conns[c].odcid.is_none() && conns[c].local.is_some() && !conns[c].cleared {
+                        if let Some(od) = conns[from].odcid.as_ref().map(|(od, _)| *od) {
+                            let entry = router.insert(od.into(), conns[c].queue.clone());
+                            conns[c].odcid = Some((od, entry));
+                            od_slot.insert(od.to_vec(), c);
+                            st.odcid_takeovers += 1;
                         }
                     }
                 }
@@ -371,7 +408,7 @@ fn run_local(ops: &[LOp], st: &mut LStats) -> Result<(), (usize, Fail)> {
                     fail!("C14.local.over-limit", "connection {ci}: {} unretired ids outstanding, peer limit {lim}", c.outstanding());
                 }
             }
-            check_routes(&router, &conns, st)
+            check_routes(&router, &conns, &od_slot, st)
         })();
         if let Err(f) = r {
             return Err((step, f));
@@ -407,6 +444,7 @@ fn gen_local(rng: &mut Rng) -> Vec<LOp> {
             3 if rng.chance(1, 4) => ops.push(LOp::Clear { c }),
             4 if rng.chance(1, 4) => ops.push(LOp::Drop { c }),
             5 if rng.chance(1, 2) => ops.push(LOp::DropOdcid { c }),
+            6 if created > 1 && rng.chance(1, 2) => ops.push(LOp::TakeoverOdcid { c, from: rng.usize(created) }),
             _ => {
                 if production_order && !limit_set[c] {
                     let n = rng.range(2, 8);
@@ -928,6 +966,8 @@ fn eval_local(rep: &mut Report, ops: &[LOp], stats: &mut LStats) {
             stats.at_limit += st.at_limit;
             stats.below_limit += st.below_limit;
             stats.max_conns = stats.max_conns.max(st.max_conns);
+            stats.odcid_takeovers += st.odcid_takeovers;
+            stats.stale_odcid_entries_checked += st.stale_odcid_entries_checked;
             if st.retire_effective > 0 {
                 rep.distinct(hash_ops(1, &js));
             }
@@ -1019,6 +1059,8 @@ fn emit(rep: &mut Report, ls: &LStats, rs: &RStats) {
     rep.add("local_set_limit_outstanding_equals_limit", ls.at_limit);
     rep.add("local_set_limit_outstanding_below_limit", ls.below_limit);
     rep.max("max_connections_on_router", ls.max_conns);
+    rep.add("router_odcid_takeovers", ls.odcid_takeovers);
+    rep.add("router_stale_odcid_entries_checked", ls.stale_odcid_entries_checked);
     rep.add("remote_frames", rs.frames);
     rep.add("remote_frames_duplicate", rs.frames_dup);
     rep.add("remote_frames_reordered", rs.frames_reordered);
